@@ -121,6 +121,11 @@ def op_key(parent, op):
 def child_key(parent, ch):
     if isinstance(ch, OPCLS):
         return op_key(parent, ch)
+    if isinstance(parent, (ast.JoinedStr, getattr(ast, 'TemplateStr', ast.JoinedStr))):
+        # the hidden text constant of '{x = }' overlaps the field that follows it: order of the parts is the order of .values
+        for i, v in enumerate(parent.values):
+            if v is ch:
+                return (i, 0, 0)
     return pos_key(ch)
 
 
